@@ -272,6 +272,9 @@ def histories(draw, kind, precision, tdtypes, large=False):
         pool = list(parts) + ([max(parts) + 1] if kind not in ('tmatch_static', 'tmatch_dpa') and draw(st.booleans()) else [])
         lab = g.choice(pool, size=(n, W))
         ddt = draw(st.sampled_from([d for d in gen.CLASS_DTYPES if int(lab.max()) <= np.iinfo(d).max]))
+        if np.dtype(ddt).kind == 'i' and len(pool) > len(parts) and max(parts) < 2 ** 16:
+            for _ in range(2):
+                lab[int(g.integers(n)), int(g.integers(W))] = -int(g.choice([1, 2, 5, 100]))   # negative foreign values
         data = lab.astype(ddt)
     # traces
     if regime == 'exact':
